@@ -8,7 +8,7 @@ frames.
 """
 from hyperframe.exceptions import InvalidFrameError, InvalidDataError
 from hyperframe.frame import (
-    Frame, HeadersFrame, ContinuationFrame, PushPromiseFrame
+    Frame, HeadersFrame, ContinuationFrame, PushPromiseFrame, SettingsFrame
 )
 
 from .exceptions import (
@@ -141,6 +141,12 @@ class FrameBuffer:
         try:
             f.parse_body(memoryview(self.data[9:9+length]))
         except InvalidDataError:
+            # A SETTINGS acknowledgement with a payload is a frame size error
+            # (RFC 7540 Section 6.5), other non-compliant data is not.
+            if isinstance(f, SettingsFrame) and 'ACK' in f.flags:
+                raise FrameDataMissingError(
+                    "SETTINGS ACK frame must have an empty payload"
+                )
             raise ProtocolError("Received frame with non-compliant data")
         except InvalidFrameError:
             raise FrameDataMissingError("Frame data missing or invalid")
